@@ -1,7 +1,7 @@
 (* C07/Properties.v — property theorems only.  Model: C07/Model.v (the code after fix commits
    e89b171, 07b228c; with the known finding F-C07a, whose fix 311264d was reverted by 0819a3f). *)
 From Coq Require Import String Lia.
-From RM Require Import C06.Model C06.Proofs C06.Proofs5 C06.Driver C07.Model C07.Proofs C07.Proofs2 C07.Proofs3 C07.Proofs4 C07.Text C07.Proofs5 C07.Walker C07.Proofs6 C07.Proofs7 C07.Proofs11 C07.Proofs13 C07.Proofs8 C07.Proofs9 C07.Proofs10 C07.Proofs12 Gen.C07WinEval C07.Source C07.Proofs14 C07.Proofs15 C07.Proofs16 Gen.C07WinLine C07.Proofs17 C07.Proofs18 C07.WalkerFd C07.Proofs19 C07.Proofs20 C07.Driver C07.Proofs21 C07.Proofs22 C07.Proofs23 C07.Proofs24.
+From RM Require Import C06.Model C06.Proofs C06.Proofs5 C06.Driver C07.Model C07.Proofs C07.Proofs2 C07.Proofs3 C07.Proofs4 C07.Text C07.Proofs5 C07.Walker C07.Proofs6 C07.Proofs7 C07.Proofs11 C07.Proofs13 C07.Proofs8 C07.Proofs9 C07.Proofs10 C07.Proofs12 Gen.C07WinEval C07.Source C07.Proofs14 C07.Proofs15 C07.Proofs16 Gen.C07WinLine C07.Proofs17 C07.Proofs18 C07.WalkerFd C07.Proofs19 C07.Proofs20 C07.Driver C07.Proofs21 C07.Proofs22 C07.Proofs23 C07.Proofs24 C07.Proofs25 C07.Proofs26.
 From RM Require C09.Grammar.
 From RM Require C08.Model C08.Proofs C08.WinModel C08.WinProofs C08.Tie.
 Open Scope Z_scope.
@@ -1015,3 +1015,103 @@ Proof.
   { repeat constructor; cbn; lia. }
   split; [cbn; lia|]. split; [reflexivity|]. vm_compute. repeat split; reflexivity.
 Qed.
+
+(* Whole walks through ALL FOUR kinds of record in one stack (closes "ebp frames MIXED with esp-based records: compared by
+   front-end G, no theorem"): FPO without / with base pointer and frame data with the .raSearch program (the caller's esp
+   is esp + frame size + 4) mixed in any order with frame data carrying the docs' standard ebp-frame program (the caller's
+   esp is ebp + 8), any depth, with or without FUNC records, any recursion: if every activation satisfies the
+   one-activation layout of its own kind (win_layout_bp / ebp_layout on a one-element list), walk_stack's loop yields
+   exactly the generated chain. *)
+Theorem c07_mixed_recovers_chain :
+  forall mem in_stack lookup (acts : list act_bp) below eip esp ebp,
+    mix_layout mem in_stack lookup (is_nil below) (spec_gcps below) eip esp ebp acts ->
+    win_walk (length acts) mem in_stack lookup below (mkX eip esp ebp) = mix_chain (spec_gcps below) esp ebp acts.
+Proof. exact mix_recovers_chain. Qed.
+Print Assumptions c07_mixed_recovers_chain.
+
+(* an FPO function (no base pointer, 4 bytes of locals) called from a standard ebp-frame function (4 bytes of locals
+   below its saved ebp) called from a function with the .raSearch frame-data program *)
+Example c07_nonvacuous_mixed_layout :
+  let mem := mem_read 4 2147483648
+     [1;1;1;1; 80;32;0;64;   2;2;2;2; 0;1;0;128; 16;48;0;64;   16;64;0;64;  0;0;0;0] in
+  let f := mkWin 4096 256 0 0 0 0 4 0 (AllocatesBasePointer false) in
+  let g := mkWin 8192 256 0 0 0 0 4 0 (ProgramString prog_ebp_frame_b) in
+  let h := mkWin 12288 256 0 0 0 0 0 0 (ProgramString prog_ra_search_b) in
+  let lookup := fun ip => if (1073745920 <=? ip) && (ip <? 1073746176) then Some (f, None)
+                          else if (1073750016 <=? ip) && (ip <? 1073750272) then Some (g, Some 0)
+                          else if (1073754112 <=? ip) && (ip <? 1073754368) then Some (h, Some 4) else None in
+  let in_stack := fun sp => (2147483648 <=? sp) && (sp <? 2147483676) in
+  let acts := [(f, None, 1073750096, 2147483660); (g, Some 0, 1073754128, 2147483904); (h, Some 4, 1073758224, 2147483904)] in
+  mix_layout mem in_stack lookup true 0 1073745936 2147483648 2147483660 acts /\
+  win_walk 3 mem in_stack lookup [] (mkX 1073745936 2147483648 2147483660) =
+    [mkX 1073750096 2147483656 2147483660; mkX 1073754128 2147483668 2147483904; mkX 1073758224 2147483672 2147483904].
+Proof.
+  cbv zeta. split; [|vm_compute; reflexivity].
+  cbn [mix_layout].
+  split; [|split; [|split; [|exact I]]].
+  - (* f: FPO on the context frame *)
+    change (is_ebp_rec _) with false. cbv iota. split; [|lia].
+    cbn [win_layout_bp w_thing]. cbv zeta.
+    repeat match goal with |- _ /\ _ => split end;
+      try exact I; try (vm_compute; reflexivity); try (vm_compute; intro Hc; discriminate Hc);
+      try (intros _; vm_compute; intro Hc; discriminate Hc).
+  - (* g: ebp frame *)
+    change (is_ebp_rec _) with true. cbv iota.
+    cbn [ebp_layout].
+    repeat match goal with |- _ /\ _ => split end;
+      try (exists 4; repeat match goal with |- _ /\ _ => split end);
+      try exact I; try (vm_compute; reflexivity); try (vm_compute; intro Hc; discriminate Hc).
+  - (* h: frame data, .raSearch *)
+    change (is_ebp_rec _) with false. cbv iota. split; [|vm_compute; intro Hc; discriminate Hc].
+    cbn [win_layout_bp w_thing]. cbv zeta.
+    repeat match goal with |- _ /\ _ => split end;
+      try exact I; try reflexivity; try (vm_compute; reflexivity); try (vm_compute; intro Hc; discriminate Hc);
+      try (intros _; vm_compute; reflexivity).
+Qed.
+
+(* The CAUSE of F-C07a, on the same model.  (1) The names the source passes to clear_caller_register (compiled from
+   clear_stack_win_caller_registers: "$eip" .. "$edi") are not register names of the x86 walker: clearing them changes
+   nothing.  (2) Counterfactual — the bare names (what the reverted fix 311264d passed): the same evaluation leaves valid
+   exactly the outputs the program defined, with the same values, for every callee validity set.  (3) Side by side: the
+   two caller states have the same register values and their validity sets differ exactly by the wrongly forwarded set
+   W of c07_forwarded_set_exact. *)
+Theorem c07_forwarding_cause :
+  (forall s, clear_all (real_ops x86) g_clear_names s = s) /\
+  (forall p E i e ctx valid s' m,
+     walk_win_framedata_bare (real_ops x86) p E i e (real_init x86 ctx valid) = Ret (s', true) ->
+     win_final_vars p E i e = Ret (Some m) ->
+     forall n, r_valid s' n = fd_sets m n /\
+               r_ctx s' n = (if mem_b n six then match vget (dollar n) m with Some v => v | None => r_ctx (real_init x86 ctx valid) n end
+                             else r_ctx (real_init x86 ctx valid) n)) /\
+  (forall p E i e ctx valid s1 s2 m,
+     walk_win_framedata (real_ops x86) p E i e (real_init x86 ctx valid) = Ret (s1, true) ->
+     walk_win_framedata_bare (real_ops x86) p E i e (real_init x86 ctx valid) = Ret (s2, true) ->
+     win_final_vars p E i e = Ret (Some m) ->
+     forall n, r_valid s1 n = r_valid s2 n || mem_b n (wrongly_forwarded valid (fd_sets m)) /\ r_ctx s1 n = r_ctx s2 n).
+Proof. exact (conj clear_source_names_noop (conj bare_names_no_forwarding forwarding_is_the_clear_names)). Qed.
+Print Assumptions c07_forwarding_cause.
+
+(* on the F-C07a witness the bare-name variant leaves esi / edi invalid *)
+Example c07_nonvacuous_forwarding_cause :
+  match walk_win_framedata_bare (real_ops x86) Debug w_env w_info w_prog (real_init x86 w_ctx None) with
+  | Ret (s', true) => r_valid s' N_esi = false /\ r_valid s' N_edi = false /\ r_valid s' N_eip = true /\ r_ctx s' N_eip = 1073745920
+  | _ => False
+  end.
+Proof. vm_compute. repeat split; reflexivity. Qed.
+
+(* c07_walk_frame_by_file_record for the functions compiled from walker.rs / mod.rs *)
+Theorem c07_src_walk_frame_by_file_record :
+  forall S (ops : wops S) p E f s,
+    Forall win_wf (sf_framedata f) -> Forall win_wf (sf_fpo f) ->
+    Forall is_framedata (sf_framedata f) -> Forall is_fpo (sf_fpo f) ->
+    (exists i0 e, In i0 (sf_framedata f) /\ covers i0 (e_instr E) /\ w_thing i0 = ProgramString e /\
+       src_walk_frame ops p E f s =
+       (do wr <- src_walk_win_framedata ops p E i0 e s;
+        if snd wr then Ret (Some (fst wr)) else cfi_fallback ops p E f (fst wr))) \/
+    (exists i0 b, In i0 (sf_fpo f) /\ covers i0 (e_instr E) /\ w_thing i0 = AllocatesBasePointer b /\
+       src_walk_frame ops p E f s =
+       (let wr := g_walk_win_fpo ops E i0 b s in
+        if snd wr then Ret (Some (fst wr)) else cfi_fallback ops p E f (fst wr))) \/
+    src_walk_frame ops p E f s = cfi_fallback ops p E f s.
+Proof. exact src_walk_frame_by_file_record. Qed.
+Print Assumptions c07_src_walk_frame_by_file_record.
